@@ -84,10 +84,10 @@ theorem init_inv : Inv (init : State V) := ⟨init_invG, by simp [init], by intr
 /-! ### transfer lemmas: what `PageOk/ClassOk/LiveOk` depend on -/
 
 theorem PageOk.transfer {s s' : State V} {p : Nat} {h : Page} (ok : PageOk s p h)
-    (hpl : ∀ x, x ∈ (s.K h.cls).plist → x ∈ (s'.K h.cls).plist)
+    (hpl : p ∈ (s.K h.cls).plist → p ∈ (s'.K h.cls).plist)
     (hn : s.nextPage ≤ s'.nextPage)
     (hl : ∀ i, s'.isLive (.sh p i) ↔ s.isLive (.sh p i)) : PageOk s' p h := by
-  refine ⟨ok.cls_lt, hpl _ ok.in_plist, Nat.lt_of_lt_of_le ok.lt_next hn, ok.brk_le, ok.fl_nodup, ok.fl_lt, ?_, ?_⟩
+  refine ⟨ok.cls_lt, hpl ok.in_plist, Nat.lt_of_lt_of_le ok.lt_next hn, ok.brk_le, ok.fl_nodup, ok.fl_lt, ?_, ?_⟩
   · intro he; have := ok.ne he
     refine ⟨?_, this.2⟩
     intro i hi; rw [hl]; exact this.1 i hi
@@ -163,7 +163,7 @@ theorem newPage_invG {s : State V} (inv : InvG s) {c : Nat} (hc : c < nClasses) 
       · intro he; simp at he
     · next ne =>
       refine (inv.pages q h hq).transfer ?_ (by simp [newPage]) (fun i => liveEq _)
-      intro x hx; rw [newPage_K]; split
+      intro hx; rw [newPage_K]; split
       · next e => subst e; simp [hx]
       · exact hx
   · intro c'
@@ -286,7 +286,7 @@ theorem take_invG {s : State V} (inv : InvG s) {c p i : Nat} {h h' : Page} {k' :
       · intro he; rw [h'ev] at he; cases he
     · next ne =>
       refine (inv.pages q hq hqq).transfer ?_ (by rw [e6]; exact Nat.le_refl _) ?_
-      · intro x hx; rw [hK]; split
+      · intro hx; rw [hK]; split
         · next e => rw [kpl, e]; exact hx
         · exact hx
       · intro j; rw [hL]
@@ -413,7 +413,9 @@ theorem allocLive_invG {s s' : State V} {c size cap : Nat} {val : Option V} {a :
     InvG s' ∧ ¬ s.isLive a ∧ s'.live = s.live.set a ⟨size, val⟩ ∧ (∃ p i, a = .sh p i) ∧
       s'.allocs = s.allocs ∧ s'.privs = s.privs ∧ s'.relog = s.relog ∧
       (∀ b, s.isLive b → s'.mem.get? b = s.mem.get? b) ∧
-      s'.mem.get? a = some ⟨some a, size, cap, val⟩ := by
+      s'.mem.get? a = some ⟨some a, size, cap, val⟩ ∧
+      (∀ q hq, s'.pages.get? q = some hq → hq.evac = true → s.pages.get? q = some hq) ∧
+      (∀ q hq, s.pages.get? q = some hq → hq.evac = true → s'.pages.get? q = some hq) := by
   unfold allocLive at hr
   simp only [] at hr
   generalize hs1 : (if (s.K c).glist.isEmpty && (s.K c).cur.isNone then newPage s c else s) = s1 at hr
@@ -427,6 +429,17 @@ theorem allocLive_invG {s s' : State V} {c size cap : Nat} {val : Option V} {a :
   have r1 : s1.relog = s.relog := by subst hs1; split <;> rfl
   have m1 : s1.mem = s.mem := by subst hs1; split <;> rfl
   have lv : ∀ b, s1.isLive b ↔ s.isLive b := by intro b; simp only [State.isLive, l1]
+  have pg1 : ∀ q hq, s1.pages.get? q = some hq → hq.evac = true → s.pages.get? q = some hq := by
+    subst hs1; intro q hq h1 h2; split at h1
+    · rw [newPage_pages] at h1; split at h1
+      · cases h1; cases h2
+      · exact h1
+    · exact h1
+  have pg2 : ∀ q hq, s.pages.get? q = some hq → s1.pages.get? q = some hq := by
+    subst hs1; intro q hq h1; split
+    · rw [newPage_pages, if_neg]; exact h1
+      intro e; have := (inv.pages q hq h1).lt_next; omega
+    · exact h1
   clear hs1
   have okc := inv1.classes c
   unfold allocSlot at hr
@@ -454,11 +467,17 @@ theorem allocLive_invG {s s' : State V} {c size cap : Nat} {val : Option V} {a :
           rw [e, hp] at a; cases a; have := okp.fl_lt j d; omega)
       (by intro q hq; simp at hq; left; exact ⟨hq.2.symm, by simp; omega⟩)
       (fun b _ => rfl) rfl rfl rfl hsz hcs
-    refine ⟨this, by rw [← lv]; exact nl, by rw [← l1], ⟨p, h.brk, rfl⟩, a1, p1, r1, ?_, ?_⟩
+    refine ⟨this, by rw [← lv]; exact nl, by rw [← l1], ⟨p, h.brk, rfl⟩, a1, p1, r1, ?_, ?_, ?_, ?_⟩
     · intro b hb; simp only [KMap.get?_set]; split
       · next e => subst e; exact absurd ((lv _).2 hb) nl
       · rw [m1]
     · simp only [KMap.get?_set, if_true]
+    · intro q hq h1 h2; simp only [KMap.get?_set] at h1; split at h1
+      · cases h1; simp only [hev] at h2; cases h2
+      · exact pg1 q hq h1 h2
+    · intro q hq h1 h2; simp only [KMap.get?_set]; split
+      · next e => subst e; have := pg2 _ _ h1; rw [hp] at this; cases this; rw [hev] at h2; cases h2
+      · exact pg2 _ _ h1
   | none =>
     simp only [hcur] at hr
     cases hgl : (s1.K c).glist with
@@ -509,11 +528,17 @@ theorem allocLive_invG {s s' : State V} {c size cap : Nat} {val : Option V} {a :
               · exact x)
         (by intro q hq; cases hq)
         hmemc rfl rfl rfl hsz hcs
-      refine ⟨this, by rw [← lv]; exact nl, by rw [← l1], ⟨p, i, rfl⟩, a1, p1, r1, ?_, ?_⟩
+      refine ⟨this, by rw [← lv]; exact nl, by rw [← l1], ⟨p, i, rfl⟩, a1, p1, r1, ?_, ?_, ?_, ?_⟩
       · intro b hb; simp only [KMap.get?_set]; split
         · next e => subst e; exact absurd ((lv _).2 hb) nl
         · rw [hmemc b ((lv b).2 hb), m1]
       · simp only [KMap.get?_set, if_true]
+      · intro q hq h1 h2; simp only [KMap.get?_set] at h1; split at h1
+        · cases h1; simp only [hev] at h2; cases h2
+        · exact pg1 q hq h1 h2
+      · intro q hq h1 h2; simp only [KMap.get?_set]; split
+        · next e => subst e; have := pg2 _ _ h1; rw [hp] at this; cases this; rw [hev] at h2; cases h2
+        · exact pg2 _ _ h1
 
 
 /-! ### facts about the generated table -/
@@ -546,7 +571,8 @@ theorem roundup_ge (n : Nat) : n ≤ roundup n osPageSize := by
 
 theorem malloc_invG {s s' : State V} {size : Nat} {a : Addr} (inv : InvG s)
     (hr : malloc s size = .ok (s', a)) :
-    InvG s' ∧ ¬ s.isLive a ∧ s'.live = s.live.set a ⟨size, none⟩ ∧ s'.allocs = s.allocs + 1 := by
+    InvG s' ∧ ¬ s.isLive a ∧ s'.live = s.live.set a ⟨size, none⟩ ∧ s'.allocs = s.allocs + 1 ∧
+      (∀ q hq, s'.pages.get? q = some hq → hq.evac = true → s.pages.get? q = some hq) := by
   unfold malloc at hr
   simp only [] at hr
   split at hr
@@ -559,11 +585,11 @@ theorem malloc_invG {s s' : State V} {size : Nat} {a : Addr} (inv : InvG s)
       | some l =>
         obtain ⟨m, _, _, _, _, _, sz, g1, _⟩ := inv.live _ l hq
         have := (inv.privs _ sz g1).1; omega
-    refine ⟨?_, nl, rfl, rfl⟩
+    refine ⟨?_, nl, rfl, rfl, fun q hq h1 _ => h1⟩
     have rg := roundup_ge (size + sliceHdrLen)
     refine ⟨?_, ?_, ?_, ?_⟩
     · intro q h hq
-      refine (inv.pages q h hq).transfer (fun x hx => hx) (by simp) ?_
+      refine (inv.pages q h hq).transfer (fun hx => hx) (by simp) ?_
       intro i; simp only [State.isLive, KMap.get?_set]; simp
     · intro c; exact (inv.classes c).transfer rfl (fun _ _ _ => Iff.rfl)
     · intro b l hl
@@ -600,12 +626,65 @@ theorem malloc_invG {s s' : State V} {size : Nat} {a : Addr} (inv : InvG s)
     obtain ⟨c1, c2⟩ := classOf_spec _ hn
     obtain ⟨t1, t2, t3⟩ := table_facts.2 _ c1
     have inv0 : InvG ({ s with allocs := s.allocs + 1 } : State V) :=
-      ⟨fun p h hp => (inv.pages p h hp).transfer (fun x hx => hx) (Nat.le_refl _) (fun _ => Iff.rfl),
+      ⟨fun p h hp => (inv.pages p h hp).transfer (fun hx => hx) (Nat.le_refl _) (fun _ => Iff.rfl),
        fun c => (inv.classes c).transfer rfl (fun _ _ _ => Iff.rfl),
        fun b l hl => (inv.live b l hl).transfer rfl (fun p i _ h hp => ⟨h, hp, Nat.le_refl _, rfl⟩) (fun _ _ => rfl),
        inv.privs⟩
-    obtain ⟨i1, i2, i3, _, i5, _⟩ := allocLive_invG inv0 c1 t1 (by omega) (by omega) hr
-    exact ⟨i1, i2, i3, i5⟩
+    obtain ⟨i1, i2, i3, _, i5, _, _, _, _, i6, _⟩ := allocLive_invG inv0 c1 t1 (by omega) (by omega) hr
+    exact ⟨i1, i2, i3, i5, i6⟩
+
+/-- allocLive never runs into a nil / unmapped page -/
+theorem allocLive_total {s : State V} (inv : InvG s) {c : Nat} (hc : c < nClasses) (hcap : 0 < capOf c)
+    (size cap : Nat) (val : Option V) : ∃ r, allocLive s c size cap val = .ok r := by
+  unfold allocLive
+  simp only []
+  generalize hs1 : (if (s.K c).glist.isEmpty && (s.K c).cur.isNone then newPage s c else s) = s1
+  have inv1 : InvG s1 := by
+    subst hs1; split
+    · exact newPage_invG inv hc hcap
+    · exact inv
+  have hne : (s1.K c).cur ≠ none ∨ (s1.K c).glist ≠ [] := by
+    subst hs1; split
+    · left; rw [newPage_K, if_pos rfl]; simp
+    · next hcond =>
+      simp only [Bool.and_eq_true, not_and, List.isEmpty_iff, Option.isNone_iff_eq_none] at hcond
+      by_cases e : (s.K c).glist = []
+      · left; exact hcond e
+      · right; exact e
+  clear hs1
+  have okc := inv1.classes c
+  unfold allocSlot
+  simp only []
+  cases hcur : (s1.K c).cur with
+  | some p =>
+    obtain ⟨h, hp, _⟩ := okc.cur_ok p hcur
+    simp only [hp]; exact ⟨_, rfl⟩
+  | none =>
+    cases hgl : (s1.K c).glist with
+    | nil => rcases hne with x | x
+             · exact absurd hcur x
+             · exact absurd hgl x
+    | cons pi rest =>
+      obtain ⟨p, i⟩ := pi
+      obtain ⟨h, hp, _⟩ := (okc.gl_iff p i).1 (by rw [hgl]; simp)
+      simp only [hp]; exact ⟨_, rfl⟩
+
+theorem malloc_total {s : State V} (inv : InvG s) (size : Nat) : ∃ s' a, malloc s size = .ok (s', a) := by
+  unfold malloc
+  simp only []
+  split
+  · exact ⟨_, _, rfl⟩
+  · next hsmall =>
+    have hn : size + sliceHdrLen ≤ maxShared := by omega
+    obtain ⟨c1, c2⟩ := classOf_spec _ hn
+    obtain ⟨t1, t2, t3⟩ := table_facts.2 _ c1
+    have inv0 : InvG ({ s with allocs := s.allocs + 1 } : State V) :=
+      ⟨fun p h hp => (inv.pages p h hp).transfer (fun hx => hx) (Nat.le_refl _) (fun _ => Iff.rfl),
+       fun c => (inv.classes c).transfer rfl (fun _ _ _ => Iff.rfl),
+       fun b l hl => (inv.live b l hl).transfer rfl (fun p i _ h hp => ⟨h, hp, Nat.le_refl _, rfl⟩) (fun _ _ => rfl),
+       inv.privs⟩
+    obtain ⟨⟨s', a⟩, hr⟩ := allocLive_total inv0 c1 t1 size (slotSize (classOf (size + sliceHdrLen)) - sliceHdrLen) none
+    exact ⟨s', a, hr⟩
 
 /-! ### Free -/
 
@@ -698,8 +777,8 @@ theorem freeShared_invG {s : State V} (inv : InvG s) {p i : Nat} {h : Page}
       · intro he; have : h.evac = true := he; rw [hev] at this; cases this
     · next ne2 =>
       refine (inv.pages q hq hqq).transfer ?_ (by rw [e6]; exact Nat.le_refl _) ?_
-      · intro x hx; rw [hK]; split
-        · next e => subst e; exact hx
+      · intro hx; rw [hK]; split
+        · next e => rw [e]; exact hx
         · exact hx
       · intro j; rw [hL]
         constructor
@@ -782,5 +861,877 @@ theorem freeShared_invG {s : State V} (inv : InvG s) {p i : Nat} {h : Page}
     rw [hP]; split
     · next e => subst e; rw [hp] at this; cases this.2
     · exact this.2
+
+
+theorem KMap.size_pos {κ α : Type} [BEq κ] [Hashable κ] [LawfulBEq κ] [LawfulHashable κ]
+    (m : KMap κ α) (k : κ) (h : (m.get? k).isSome = true) : 0 < m.size := by
+  have hm : k ∈ m.m := by
+    simp only [KMap.get?] at h
+    exact Std.HashMap.mem_iff_isSome_getElem?.2 h
+  have : m.m.isEmpty = false := Std.HashMap.isEmpty_eq_false_iff_exists_mem.2 ⟨k, hm⟩
+  rw [Std.HashMap.isEmpty_eq_size_eq_zero] at this
+  simp only [KMap.size]
+  simp at this; omega
+
+theorem free_inv {s s' : State V} {a : Addr} (inv : Inv s) (hr : free s a = .ok s') :
+    Inv s' ∧ s.isLive a ∧ s'.live = s.live.del a := by
+  unfold free at hr
+  split at hr
+  · cases hr
+  · next hlive =>
+    have hl : s.isLive a := by
+      simp only [State.isLive]; cases hq : s.live.get? a <;> simp_all
+    simp only [] at hr
+    have hsz := KMap.size_pos s.live a hl
+    have hallocs : (s.allocs - 1 : Int) = ((s.live.del a).size : Int) := by
+      rw [KMap.size_del, inv.allocs]; simp only [State.isLive] at hl; rw [hl]; simp; omega
+    cases hq : s.live.get? a with
+    | none => simp [State.isLive, hq] at hl
+    | some l =>
+    obtain ⟨m, hm, _, _, _, _, h6⟩ := inv.g.live a l hq
+    simp only [hm] at hr
+    split at hr
+    · next hbig =>
+      cases a with
+      | sh p i => cases hr
+      | pv id =>
+        simp only [] at hr; cases hr
+        obtain ⟨sz, g1, g2, g3⟩ := h6
+        refine ⟨⟨?_, hallocs, ?_⟩, hl, rfl⟩
+        · refine ⟨?_, ?_, ?_, ?_⟩
+          · intro q h hq2
+            refine (inv.g.pages q h hq2).transfer (fun hx => hx) (Nat.le_refl _) ?_
+            intro i; simp only [State.isLive, KMap.get?_del]; simp
+          · intro c; exact (inv.g.classes c).transfer rfl (fun _ _ _ => Iff.rfl)
+          · intro b lb hlb
+            simp only [KMap.get?_del] at hlb
+            split at hlb
+            · cases hlb
+            · next ne =>
+              refine (inv.g.live b lb hlb).transfer (by simp only [KMap.get?_del, if_neg ne]) ?_ ?_
+              · intro p i _ h hp; exact ⟨h, hp, Nat.le_refl _, rfl⟩
+              · intro id' e; subst e
+                simp only [KMap.get?_del]; split
+                · next e2 => subst e2; exact absurd rfl ne
+                · rfl
+          · intro id' sz' hid
+            simp only [KMap.get?_del] at hid
+            split at hid
+            · cases hid
+            · exact inv.g.privs id' sz' hid
+        · exact inv.noEvac
+    · next hsmall =>
+      cases a with
+      | pv id =>
+        obtain ⟨sz, g1, g2, g3⟩ := h6
+        omega
+      | sh p i =>
+        simp only [] at hr
+        obtain ⟨h, g1, g2, g3⟩ := h6
+        simp only [g1] at hr
+        split at hr
+        · next hu =>
+          cases hr
+          have hev := inv.noEvac p h g1
+          refine ⟨⟨freeShared_invG inv.g g1 hev hl hu, ?_, ?_⟩, hl, ?_⟩
+          · simp only [freeSlot, hev]; exact hallocs
+          · intro q hq2 hqq
+            simp only [freeSlot, hev, Bool.false_eq_true, if_false, KMap.get?_set] at hqq
+            split at hqq
+            · cases hqq; first | rfl | exact hev
+            · exact inv.noEvac q hq2 hqq
+          · simp only [freeSlot, hev]; rfl
+        · cases hr
+
+theorem free_total {s : State V} {a : Addr} (inv : Inv s) (hl : s.isLive a) : ∃ s', free s a = .ok s' := by
+  unfold free
+  simp only [State.isLive] at hl
+  cases hq : s.live.get? a with
+  | none => simp [hq] at hl
+  | some l =>
+  simp only [Option.isNone_some, Bool.false_eq_true, if_false]
+  obtain ⟨m, hm, _, _, _, _, h6⟩ := inv.g.live a l hq
+  simp only [hm]
+  cases a with
+  | pv id =>
+    obtain ⟨sz, g1, g2, g3⟩ := h6
+    rw [if_pos (by omega)]; exact ⟨_, rfl⟩
+  | sh p i =>
+    obtain ⟨h, g1, g2, g3⟩ := h6
+    have okp := inv.g.pages p h g1
+    have t := (table_facts.2 _ okp.cls_lt).2.1
+    rw [if_neg (by omega)]
+    simp only [g1]
+    have hev := inv.noEvac p h g1
+    have ne := okp.ne hev
+    -- pigeonhole: slot i is live, so the free list cannot hold all brk slots
+    have hlive : s.isLive (.sh p i) := by simp [State.isLive, hq]
+    have inl : i ∉ h.freeList := fun x => ((ne.1 i g2).1 x) hlive
+    have := nodup_bound h.brk (i :: h.freeList) (List.nodup_cons.2 ⟨inl, okp.fl_nodup⟩) (by
+      intro x hx; simp only [List.mem_cons] at hx
+      rcases hx with e | e
+      · subst e; exact g2
+      · exact okp.fl_lt x e)
+    simp only [List.length_cons] at this
+    rw [if_pos (by omega)]; exact ⟨_, rfl⟩
+
+theorem write_inv {s s' : State V} {a : Addr} {v : V} (inv : Inv s) (hr : write s a v = .ok s') :
+    Inv s' ∧ ∃ l, s.live.get? a = some l ∧ s'.live = s.live.set a { l with val := some v } := by
+  unfold write at hr
+  cases hq : s.live.get? a with
+  | none => simp [hq] at hr
+  | some l =>
+  cases hm : s.mem.get? a with
+  | none => simp [hq, hm] at hr
+  | some m =>
+  simp only [hq, hm] at hr
+  cases hr
+  refine ⟨⟨?_, ?_, inv.noEvac⟩, l, rfl, rfl⟩
+  · have hL : ∀ b, ({ s with mem := s.mem.set a { m with val := some v }, live := s.live.set a { l with val := some v } } : State V).isLive b ↔ s.isLive b := by
+      intro b; simp only [State.isLive, KMap.get?_set]; split
+      · next e => subst e; simp [hq]
+      · rfl
+    refine ⟨?_, ?_, ?_, inv.g.privs⟩
+    · intro q h hq2
+      exact (inv.g.pages q h hq2).transfer (fun hx => hx) (Nat.le_refl _) (fun i => hL _)
+    · intro c; exact (inv.g.classes c).transfer rfl (fun _ _ _ => Iff.rfl)
+    · intro b lb hlb
+      simp only [KMap.get?_set] at hlb
+      split at hlb
+      · next e =>
+        subst e; cases hlb
+        obtain ⟨m0, h1, h2, h3, h4, h5, h6⟩ := inv.g.live _ l hq
+        rw [hm] at h1; cases h1
+        exact ⟨{ m with val := some v }, by simp only [KMap.get?_set, if_true], h2, h3, rfl, h5, h6⟩
+      · next ne =>
+        exact (inv.g.live b lb hlb).transfer (by simp only [KMap.get?_set, if_neg ne])
+          (fun p i _ h hp => ⟨h, hp, Nat.le_refl _, rfl⟩) (fun _ _ => rfl)
+  · show s.allocs = (s.live.set a { l with val := some v }).size
+    rw [KMap.size_set, hq]; exact inv.allocs
+
+theorem malloc_inv {s s' : State V} {size : Nat} {a : Addr} (inv : Inv s)
+    (hr : malloc s size = .ok (s', a)) :
+    Inv s' ∧ ¬ s.isLive a ∧ s'.live = s.live.set a ⟨size, none⟩ := by
+  obtain ⟨i1, i2, i3, i4, i5⟩ := malloc_invG inv.g hr
+  refine ⟨⟨i1, ?_, ?_⟩, i2, i3⟩
+  · rw [i4, i3, KMap.size_set, inv.allocs]
+    simp only [State.isLive] at i2
+    cases hq : s.live.get? a <;> simp_all
+  · intro q hq h1
+    cases he : hq.evac with
+    | false => rfl
+    | true => have := inv.noEvac q hq (i5 q hq h1 he); rw [this] at he; cases he
+
+
+/-! ### defragmentation steps -/
+
+theorem ClassOk.transfer' {s s' : State V} {c : Nat} (ok : ClassOk s c)
+    (k1 : (s'.K c).plist = (s.K c).plist) (k2 : (s'.K c).pageCount = (s.K c).pageCount)
+    (k3 : (s'.K c).glist = (s.K c).glist) (k4 : (s'.K c).cur = (s.K c).cur)
+    (hp1 : ∀ p h, s.pages.get? p = some h → h.cls = c → ∃ h', s'.pages.get? p = some h' ∧ h'.cls = c ∧
+        h'.evac = h.evac ∧ h'.freeList = h.freeList ∧ h'.brk = h.brk)
+    (hp2 : ∀ p h', s'.pages.get? p = some h' → h'.cls = c → ∃ h, s.pages.get? p = some h ∧ h.cls = c ∧
+        h'.evac = h.evac ∧ h'.freeList = h.freeList ∧ h'.brk = h.brk) : ClassOk s' c := by
+  refine ⟨by rw [k1]; exact ok.pl_nodup, ?_, by rw [k1, k2]; exact ok.count, by rw [k3]; exact ok.gl_nodup, ?_, ?_⟩
+  · intro p hpp; rw [k1] at hpp
+    obtain ⟨h, h1, h2⟩ := ok.pl_pages p hpp
+    obtain ⟨h', a, b, _⟩ := hp1 p h h1 h2
+    exact ⟨h', a, b⟩
+  · intro p i; rw [k3, ok.gl_iff]
+    constructor
+    · rintro ⟨h, h1, h2, h3, h4⟩
+      obtain ⟨h', a, b, c1, d, _⟩ := hp1 p h h1 h2
+      exact ⟨h', a, b, by rw [c1]; exact h3, by rw [d]; exact h4⟩
+    · rintro ⟨h', h1, h2, h3, h4⟩
+      obtain ⟨h, a, b, c1, d, _⟩ := hp2 p h' h1 h2
+      exact ⟨h, a, b, by rw [← c1]; exact h3, by rw [← d]; exact h4⟩
+  · intro p hc; rw [k4] at hc
+    obtain ⟨h, h1, h2, h3, h4⟩ := ok.cur_ok p hc
+    obtain ⟨h', a, b, c1, _, e⟩ := hp1 p h h1 h2
+    exact ⟨h', a, b, by rw [c1]; exact h3, by rw [e]; exact h4⟩
+
+theorem beginEvac_invG {s s' : State V} {c pg : Nat} (inv : InvG s) (hr : beginEvac s c pg = .ok s') :
+    InvG s' ∧ s'.live = s.live ∧ s'.allocs = s.allocs ∧ s'.relog = s.relog ∧
+    (∀ q hq, s'.pages.get? q = some hq → hq.evac = true → (q = pg ∧ hq.cls = c) ∨ s.pages.get? q = some hq) ∧
+    (∃ h, s.pages.get? pg = some h ∧ h.cls = c ∧ h.evac = false) ∧
+    (∀ b, s.isLive b → s'.mem.get? b = s.mem.get? b) := by
+  unfold beginEvac at hr
+  cases hp : s.pages.get? pg with
+  | none => simp [hp] at hr
+  | some h =>
+  simp only [hp] at hr
+  split at hr
+  · cases hr
+  · next hcond =>
+    simp only [not_or, Decidable.not_not, Bool.not_eq_true] at hcond
+    obtain ⟨hcl, hev⟩ := hcond
+    cases hr
+    have okp := inv.pages pg h hp
+    have okc := inv.classes c
+    have ne := okp.ne hev
+    refine ⟨?_, rfl, rfl, rfl, ?_, ⟨h, rfl, hcl, hev⟩, ?_⟩
+    · have hK : ∀ c', State.K (V := V) { s with
+          pages := s.pages.set pg { h with evac := true, saved := h.freeList, freeList := [], scan := 0 },
+          cls := s.cls.set c { s.K c with cur := if (s.K c).cur = some pg then none else (s.K c).cur,
+                                          glist := (s.K c).glist.filter (fun (q, _) => q ≠ pg) },
+          mem := clobber s.mem ((s.K c).glist.map (fun (q, j) => Addr.sh q j)) } c' =
+          if c = c' then { s.K c with cur := if (s.K c).cur = some pg then none else (s.K c).cur,
+                                      glist := (s.K c).glist.filter (fun (q, _) => q ≠ pg) } else s.K c' := by
+        intro c'; simp only [State.K, KMap.get?_set]; split <;> rfl
+      refine ⟨?_, ?_, ?_, ?_⟩
+      · intro q hq hqq
+        simp only [KMap.get?_set] at hqq
+        split at hqq
+        · next e =>
+          subst e; cases hqq
+          refine ⟨okp.cls_lt, ?_, okp.lt_next, okp.brk_le, by simp, by simp, ?_, ?_⟩
+          · show pg ∈ (State.K _ h.cls).plist
+            rw [hK]; split
+            · next e => subst e; exact okp.in_plist
+            · exact okp.in_plist
+          · intro he; cases he
+          · intro _
+            refine ⟨rfl, ?_⟩
+            intro i hi
+            show s.isLive (.sh pg i) ↔ (0 ≤ i ∧ i ∉ h.freeList)
+            rw [ne.1 i hi]
+            simp only [Nat.zero_le, true_and]
+            exact ⟨fun x y => y x, fun x => Classical.not_not.1 x⟩
+        · next ne2 =>
+          refine (inv.pages q hq hqq).transfer ?_ (Nat.le_refl _) (fun _ => Iff.rfl)
+          intro hx; rw [hK]; split
+          · next e => rw [← e] at hx; exact hx
+          · exact hx
+      · intro c'
+        by_cases e : c = c'
+        · subst e
+          refine ⟨?_, ?_, ?_, ?_, ?_, ?_⟩
+          · rw [hK, if_pos rfl]; exact okc.pl_nodup
+          · intro q hq; rw [hK, if_pos rfl] at hq
+            obtain ⟨h0, a, b⟩ := okc.pl_pages q hq
+            simp only [KMap.get?_set]; split
+            · exact ⟨_, rfl, hcl⟩
+            · exact ⟨h0, a, b⟩
+          · rw [hK, if_pos rfl]; exact okc.count
+          · rw [hK, if_pos rfl]; exact okc.gl_nodup.sublist List.filter_sublist
+          · intro q j; rw [hK, if_pos rfl]
+            simp only [List.mem_filter, decide_eq_true_eq, KMap.get?_set]
+            rw [okc.gl_iff]
+            split
+            · next e =>
+              subst e
+              constructor
+              · rintro ⟨_, x⟩; exact absurd rfl x
+              · rintro ⟨h0, a, _, c1, _⟩; cases a; cases c1
+            · next ne2 =>
+              constructor
+              · exact fun x => x.1
+              · exact fun x => ⟨x, fun y => ne2 y.symm⟩
+          · intro q hq; rw [hK, if_pos rfl] at hq
+            simp only at hq
+            split at hq
+            · cases hq
+            · next ncur =>
+              obtain ⟨h0, a, b, c1, d⟩ := okc.cur_ok q hq
+              simp only [KMap.get?_set]; split
+              · next e => subst e; exact absurd hq ncur
+              · exact ⟨h0, a, b, c1, d⟩
+        · refine (inv.classes c').transfer (by rw [hK, if_neg e]) ?_
+          intro q h0 h0c; simp only [KMap.get?_set]; split
+          · next e2 =>
+            subst e2
+            constructor
+            · intro x; cases x; exact absurd (hcl.symm.trans h0c) e
+            · intro x; rw [hp] at x; cases x; exact absurd (hcl.symm.trans h0c) e
+          · exact Iff.rfl
+      · intro b l hlb
+        have lb : s.isLive b := by simp [State.isLive, hlb]
+        refine (inv.live b l hlb).transfer ?_ ?_ (fun _ _ => rfl)
+        · apply clobber_get
+          intro hin; simp only [List.mem_map] at hin
+          obtain ⟨⟨q, j⟩, hm, e⟩ := hin
+          subst e; exact gl_not_live inv hm lb
+        · intro q j _ h0 hq; simp only [KMap.get?_set]; split
+          · next e => subst e; rw [hp] at hq; cases hq; exact ⟨_, rfl, Nat.le_refl _, rfl⟩
+          · exact ⟨h0, hq, Nat.le_refl _, rfl⟩
+      · intro id sz hid
+        have := inv.privs id sz hid
+        refine ⟨this.1, ?_⟩
+        simp only [KMap.get?_set]; split
+        · next e => subst e; rw [hp] at this; cases this.2
+        · exact this.2
+    · intro q hq h1 h2
+      simp only [KMap.get?_set] at h1; split at h1
+      · next e => cases h1; exact Or.inl ⟨e.symm, hcl⟩
+      · exact Or.inr h1
+    · intro b lb
+      apply clobber_get
+      intro hin; simp only [List.mem_map] at hin
+      obtain ⟨⟨q, j⟩, hm, e⟩ := hin
+      subst e; exact gl_not_live inv hm lb
+
+
+/-- one step of the slot loop of an evacuating page, stated extensionally: slot `scan` stops being
+    live (it was relocated, or it was free all along) and `scan` advances. -/
+theorem evac_advance {s1 s3 : State V} (inv : InvG s1) {pg : Nat} {h h3 : Page}
+    (hp : s1.pages.get? pg = some h) (hev : h.evac = true) (hsc : h.scan < h.brk)
+    (g1 : h3.cls = h.cls) (g2 : h3.evac = true) (g3 : h3.brk = h.brk) (g4 : h3.freeList = h.freeList)
+    (g5 : h3.saved = h.saved) (g6 : h3.scan = h.scan + 1)
+    (hpages : ∀ q, s3.pages.get? q = if pg = q then some h3 else s1.pages.get? q)
+    (hK : ∀ c, (s3.K c).plist = (s1.K c).plist ∧ (s3.K c).pageCount = (s1.K c).pageCount ∧
+        (s3.K c).glist = (s1.K c).glist ∧ (s3.K c).cur = (s1.K c).cur)
+    (hlive : ∀ b, s3.live.get? b = if b = .sh pg h.scan then none else s1.live.get? b)
+    (hmem : s3.mem = s1.mem) (hprivs : s3.privs = s1.privs) (hnext : s3.nextPage = s1.nextPage) :
+    InvG s3 := by
+  have okp := inv.pages pg h hp
+  have hL : ∀ b, s3.isLive b ↔ (b ≠ .sh pg h.scan ∧ s1.isLive b) := by
+    intro b; simp only [State.isLive, hlive]; split
+    · next e => simp [e]
+    · next ne => simp [ne]
+  refine ⟨?_, ?_, ?_, ?_⟩
+  · intro q hq hqq
+    rw [hpages] at hqq
+    split at hqq
+    · next e =>
+      subst e; cases hqq
+      have ev := okp.ev hev
+      refine ⟨by rw [g1]; exact okp.cls_lt, by rw [g1, (hK _).1]; exact okp.in_plist,
+        by rw [hnext]; exact okp.lt_next, by rw [g1, g3]; exact okp.brk_le, by rw [g4]; exact okp.fl_nodup,
+        by rw [g4, g3]; exact okp.fl_lt, ?_, ?_⟩
+      · intro he; rw [g2] at he; cases he
+      · intro _
+        refine ⟨by rw [g4]; exact ev.1, ?_⟩
+        intro i hi; rw [g3] at hi
+        rw [hL, ev.2 i hi, g6, g5]
+        constructor
+        · rintro ⟨a, b, c1⟩
+          refine ⟨?_, c1⟩
+          have : i ≠ h.scan := fun e => a (by rw [e])
+          omega
+        · rintro ⟨a, b⟩
+          exact ⟨fun e => by cases e; omega, by omega, b⟩
+    · next ne2 =>
+      refine (inv.pages q hq hqq).transfer ?_ (by rw [hnext]; exact Nat.le_refl _) ?_
+      · intro hx; rw [(hK _).1]; exact hx
+      · intro j; rw [hL]
+        constructor
+        · exact fun x => x.2
+        · intro x; exact ⟨fun y => by cases y; exact ne2 rfl, x⟩
+  · intro c
+    obtain ⟨k1, k2, k3, k4⟩ := hK c
+    refine (inv.classes c).transfer' k1 k2 k3 k4 ?_ ?_
+    · intro q h0 hq hc; rw [hpages]; split
+      · next e => subst e; rw [hp] at hq; cases hq
+                  exact ⟨h3, rfl, by rw [g1]; exact hc, by rw [g2, hev], g4, g3⟩
+      · exact ⟨h0, hq, hc, rfl, rfl, rfl⟩
+    · intro q h0 hq hc; rw [hpages] at hq; split at hq
+      · next e => subst e; cases hq
+                  exact ⟨h, hp, by rw [← g1]; exact hc, by rw [g2, hev], g4, g3⟩
+      · exact ⟨h0, hq, hc, rfl, rfl, rfl⟩
+  · intro b l hlb
+    rw [hlive] at hlb
+    split at hlb
+    · cases hlb
+    · next ne2 =>
+      refine (inv.live b l hlb).transfer (by rw [hmem]) ?_ (fun _ _ => by rw [hprivs])
+      intro q j _ h0 hq; rw [hpages]; split
+      · next e => subst e; rw [hp] at hq; cases hq; exact ⟨h3, rfl, by rw [g3]; exact Nat.le_refl _, g1⟩
+      · exact ⟨h0, hq, Nat.le_refl _, rfl⟩
+  · intro id sz hid
+    rw [hprivs] at hid
+    have := inv.privs id sz hid
+    refine ⟨by rw [hnext]; exact this.1, ?_⟩
+    rw [hpages]; split
+    · next e => subst e; rw [hp] at this; cases this.2
+    · exact this.2
+
+theorem evac_finish {s s3 : State V} (inv : InvG s) {c pg : Nat} {h : Page}
+    (hp : s.pages.get? pg = some h) (hev : h.evac = true) (hsc : h.scan = h.brk) (hcl : h.cls = c)
+    (hpages : ∀ q, s3.pages.get? q = if pg = q then none else s.pages.get? q)
+    (hKc : (s3.K c).plist = (s.K c).plist.erase pg ∧ (s3.K c).pageCount = (s.K c).pageCount - 1 ∧
+        (s3.K c).glist = (s.K c).glist ∧ (s3.K c).cur = if (s.K c).cur = some pg then none else (s.K c).cur)
+    (hK : ∀ c', c ≠ c' → s3.K c' = s.K c')
+    (hlive : s3.live = s.live) (hmem : s3.mem = s.mem) (hprivs : s3.privs = s.privs)
+    (hnext : s3.nextPage = s.nextPage) : InvG s3 := by
+  have okp := inv.pages pg h hp
+  have okc := inv.classes c
+  have ev := okp.ev hev
+  have hL : ∀ b, s3.isLive b ↔ s.isLive b := by intro b; simp only [State.isLive, hlive]
+  have nolive : ∀ i, ¬ s.isLive (.sh pg i) := by
+    intro i hl
+    have ib := live_lt_brk inv hp hl
+    have := (ev.2 i ib).1 hl
+    omega
+  have pgin : pg ∈ (s.K c).plist := by rw [← hcl]; exact okp.in_plist
+  obtain ⟨k1, k2, k3, k4⟩ := hKc
+  refine ⟨?_, ?_, ?_, ?_⟩
+  · intro q hq hqq
+    rw [hpages] at hqq
+    split at hqq
+    · cases hqq
+    · next ne2 =>
+      refine (inv.pages q hq hqq).transfer ?_ (by rw [hnext]; exact Nat.le_refl _) (fun _ => hL _)
+      intro hx
+      by_cases e : c = hq.cls
+      · rw [← e, k1]; rw [← e] at hx
+        exact (okc.pl_nodup.mem_erase_iff).2 ⟨fun x => ne2 x.symm, hx⟩
+      · rw [hK _ e]; exact hx
+  · intro c'
+    by_cases e : c = c'
+    · subst e
+      refine ⟨?_, ?_, ?_, ?_, ?_, ?_⟩
+      · rw [k1]; exact okc.pl_nodup.erase pg
+      · intro q hq; rw [k1, okc.pl_nodup.mem_erase_iff] at hq
+        obtain ⟨h0, a, b⟩ := okc.pl_pages q hq.2
+        rw [hpages, if_neg (fun x => hq.1 x.symm)]; exact ⟨h0, a, b⟩
+      · rw [k1, k2, okc.count, List.length_erase_of_mem pgin]
+      · rw [k3]; exact okc.gl_nodup
+      · intro q j; rw [k3, okc.gl_iff, hpages]
+        split
+        · next e =>
+          subst e
+          constructor
+          · rintro ⟨h0, a, _, c1, _⟩; rw [hp] at a; cases a; rw [hev] at c1; cases c1
+          · rintro ⟨h0, a, _⟩; cases a
+        · exact Iff.rfl
+      · intro q hq; rw [k4] at hq
+        split at hq
+        · cases hq
+        · next ncur =>
+          obtain ⟨h0, a, b, c1, d⟩ := okc.cur_ok q hq
+          rw [hpages]; split
+          · next e => subst e; exact absurd hq ncur
+          · exact ⟨h0, a, b, c1, d⟩
+    · refine (inv.classes c').transfer (hK c' e) ?_
+      intro q h0 h0c; rw [hpages]; split
+      · next e2 =>
+        subst e2
+        constructor
+        · intro x; cases x
+        · intro x; rw [hp] at x; cases x; exact absurd (hcl.symm.trans h0c) e
+      · exact Iff.rfl
+  · intro b l hlb
+    rw [hlive] at hlb
+    have lb : s.isLive b := by simp [State.isLive, hlb]
+    refine (inv.live b l hlb).transfer (by rw [hmem]) ?_ (fun _ _ => by rw [hprivs])
+    intro q j e h0 hq; subst e
+    rw [hpages]; split
+    · next e => subst e; exact absurd lb (nolive j)
+    · exact ⟨h0, hq, Nat.le_refl _, rfl⟩
+  · intro id sz hid
+    rw [hprivs] at hid
+    have := inv.privs id sz hid
+    refine ⟨by rw [hnext]; exact this.1, ?_⟩
+    rw [hpages]; split
+    · rfl
+    · exact this.2
+
+theorem endEvac_invG {s s' : State V} {c pg : Nat} (inv : InvG s) (hr : endEvac s c pg = .ok s') :
+    InvG s' ∧ s'.live = s.live ∧ s'.allocs = s.allocs ∧ s'.relog = s.relog ∧ s'.mem = s.mem ∧
+    (∀ q hq, s'.pages.get? q = some hq → q ≠ pg ∧ s.pages.get? q = some hq) := by
+  unfold endEvac at hr
+  cases hp : s.pages.get? pg with
+  | none => simp [hp] at hr
+  | some h =>
+  simp only [hp] at hr
+  split at hr
+  · cases hr
+  · next hcond =>
+    simp only [Bool.or_eq_true, Bool.not_eq_true', decide_eq_true_eq, not_or, Decidable.not_not,
+      Bool.not_eq_false, bne_iff_ne, ne_eq] at hcond
+    obtain ⟨⟨hsc, hev⟩, hcl⟩ := hcond
+    cases hr
+    refine ⟨?_, rfl, rfl, rfl, rfl, ?_⟩
+    · refine evac_finish inv hp hev hsc hcl (by intro q; simp only [KMap.get?_del]) ?_ ?_ rfl rfl rfl rfl
+      · simp [State.K, KMap.get?_set]
+      · intro c' e; simp only [State.K, KMap.get?_set, if_neg e]
+    · intro q hq h1
+      simp only [KMap.get?_del] at h1; split at h1
+      · cases h1
+      · next ne2 => exact ⟨fun e => ne2 e.symm, h1⟩
+
+
+/-- What one iteration of the slot loop does (`moveNext`): the invariant is kept, the number of live
+    allocations and `Allocs` are unchanged, no other page becomes evacuating, and either nothing was
+    relocated (slot was on the saved free set) or exactly one live allocation `old` on the page moved
+    to a slot `new` that was not live, with the same size and last-written value, `new`'s memory holding
+    that value with a correct slice header, and `relocate(old,new)` logged once. -/
+theorem moveNext_invG {s s' : State V} {c pg : Nat} (inv : InvG s) (hc : c < nClasses)
+    (hcls : ∀ h, s.pages.get? pg = some h → h.evac = true → h.cls = c)
+    (hr : moveNext s c pg = .ok s') :
+    InvG s' ∧ s'.allocs = s.allocs ∧ s'.live.size = s.live.size ∧
+    (∃ h h', s.pages.get? pg = some h ∧ s'.pages.get? pg = some h' ∧ h'.scan = h.scan + 1 ∧
+        h'.brk = h.brk ∧ h'.evac = true ∧ h.evac = true ∧ h'.cls = h.cls ∧ h.scan < h.brk) ∧
+    (∀ q hq, s'.pages.get? q = some hq → hq.evac = true → q = pg ∨ s.pages.get? q = some hq) ∧
+    ((s'.live = s.live ∧ s'.relog = s.relog ∧ s'.mem = s.mem) ∨
+     (∃ i new l, s.live.get? (.sh pg i) = some l ∧ ¬ s.isLive new ∧
+        s'.relog = (.sh pg i, new) :: s.relog ∧
+        s'.live.get? new = some l ∧ s'.live.get? (.sh pg i) = none ∧
+        (∀ b, b ≠ new → b ≠ .sh pg i → s'.live.get? b = s.live.get? b) ∧
+        (∀ b, s.isLive b → s'.mem.get? b = s.mem.get? b))) := by
+  unfold moveNext at hr
+  cases hp : s.pages.get? pg with
+  | none => simp [hp] at hr
+  | some h =>
+  simp only [hp] at hr
+  split at hr
+  · cases hr
+  · next hcond =>
+    simp only [Bool.or_eq_true, Bool.not_eq_true', decide_eq_true_eq, not_or, Bool.not_eq_false,
+      Nat.not_le, ge_iff_le] at hcond
+    obtain ⟨hev, hsc⟩ := hcond
+    have okp := inv.pages pg h hp
+    have ev := okp.ev hev
+    split at hr
+    · next hsaved =>
+      -- slot is on the saved free set: only `scan` advances
+      cases hr
+      have hin : h.scan ∈ h.saved := by simpa using hsaved
+      have nl : s.live.get? (.sh pg h.scan) = none := by
+        have := (ev.2 h.scan hsc)
+        cases hq : s.live.get? (.sh pg h.scan) with
+        | none => rfl
+        | some l => exact absurd ((this.1 (by simp [State.isLive, hq])).2) (fun x => x hin)
+      refine ⟨?_, rfl, rfl, ⟨h, { h with scan := h.scan + 1 }, rfl, by simp only [KMap.get?_set, if_true], rfl, rfl, hev, hev, rfl, hsc⟩,
+        ?_, Or.inl ⟨rfl, rfl, rfl⟩⟩
+      · refine evac_advance inv hp hev hsc (h3 := { h with scan := h.scan + 1 }) rfl hev rfl rfl rfl rfl
+          (by intro q; simp only [KMap.get?_set]) (fun c' => ⟨rfl, rfl, rfl, rfl⟩) ?_ rfl rfl rfl
+        intro b; split
+        · next e => subst e; exact nl
+        · rfl
+      · intro q hq h1 h2
+        simp only [KMap.get?_set] at h1; split at h1
+        · next e => exact Or.inl e.symm
+        · exact Or.inr h1
+    · next hsaved =>
+      have hnin : h.scan ∉ h.saved := by simpa using hsaved
+      have hlive : s.isLive (.sh pg h.scan) := (ev.2 h.scan hsc).2 ⟨Nat.le_refl _, hnin⟩
+      cases hq : s.live.get? (.sh pg h.scan) with
+      | none => simp [State.isLive, hq] at hlive
+      | some l =>
+      obtain ⟨m, hm, m1, m2, m3, m4, h0, g1, g2, g3⟩ := inv.live _ l hq
+      rw [hp] at g1; cases g1
+      simp only [hm, hq] at hr
+      cases hal : allocLive s c m.len m.cap m.val with
+      | error e => simp [hal] at hr
+      | ok r =>
+      obtain ⟨s1, new⟩ := r
+      simp only [hal] at hr
+      -- the class of the page must be the class asked for (beginEvac checked it); otherwise the slot
+      -- sizes differ: we only need cap + hdr = slotSize c for allocLive_invG, so require it
+      by_cases hcc : h.cls = c
+      · have t := table_facts.2 c hc
+        obtain ⟨i1, i2, i3, ⟨np, ni, hnew⟩, i5, i6, i7, i8, i9, i10, i11⟩ :=
+          allocLive_invG inv hc t.1 (by rw [m2]; exact m4) (by rw [← hcc]; exact g3) hal
+        have hp1 : s1.pages.get? pg = some h := i11 pg h hp hev
+        simp only [hp1] at hr
+        cases hr
+        have hne : new ≠ .sh pg h.scan := fun e => i2 (by rw [e]; exact hlive)
+        have l1new : s1.live.get? new = some ⟨m.len, m.val⟩ := by rw [i3, KMap.get?_set, if_pos rfl]
+        have l1old : s1.live.get? (.sh pg h.scan) = some l := by
+          rw [i3, KMap.get?_set, if_neg hne]; exact hq
+        have hfs : ∀ (s2 : State V) (h2 : Page), h2.evac = true → freeSlot s2 pg h.scan h2 =
+            { s2 with pages := s2.pages.set pg { h2 with used := h2.used - 1, free := h2.free + 1 },
+                      cls := s2.cls.set h2.cls { s2.K h2.cls with freeSlots := (s2.K h2.cls).freeSlots + 1 } } := by
+          intro s2 h2 e; simp only [freeSlot, e, if_true]
+        rw [hfs _ _ (by exact hev)]
+        refine ⟨?_, by simp only [i5], ?_, ⟨h, { h with scan := h.scan + 1, used := h.used - 1, free := h.free + 1 }, rfl, by simp only [KMap.get?_set, if_true], rfl, rfl, hev, hev, rfl, hsc⟩, ?_, Or.inr ?_⟩
+        · refine evac_advance i1 hp1 hev hsc
+            (h3 := { h with scan := h.scan + 1, used := h.used - 1, free := h.free + 1 }) rfl hev rfl rfl rfl rfl
+            (by intro q; simp only [KMap.get?_set]) ?_ ?_ rfl rfl rfl
+          · intro c'
+            simp only [State.K, KMap.get?_set]
+            split
+            · next e => subst e; exact ⟨rfl, rfl, rfl, rfl⟩
+            · exact ⟨rfl, rfl, rfl, rfl⟩
+          · intro b
+            simp only [KMap.get?_set, KMap.get?_del]
+            split
+            · next e =>
+              subst e; rw [if_neg hne, l1new, m2, m3]
+            · next ne1 =>
+              split
+              · next e => subst e; rw [if_pos rfl]
+              · next ne2 => rw [if_neg (fun x => ne2 x.symm)]
+        · show ((s1.live.del (.sh pg h.scan)).set new ⟨l.size, l.val⟩).size = s.live.size
+          have e1 : ((s1.live.del (.sh pg h.scan)).get? new).isSome = true := by
+            rw [KMap.get?_del, if_neg (fun x => hne x.symm), l1new]; rfl
+          have e2 : (s1.live.get? (.sh pg h.scan)).isSome = true := by rw [l1old]; rfl
+          have e3 : (s.live.get? new).isSome = false := by
+            simp only [State.isLive] at i2; cases hx : (s.live.get? new).isSome <;> simp_all
+          rw [KMap.size_set, e1]; simp only [if_true]
+          rw [KMap.size_del, e2]; simp only [if_true]
+          rw [i3, KMap.size_set, e3]; simp
+        · intro q hq2 h1 h2
+          simp only [KMap.get?_set] at h1; split at h1
+          · next e => exact Or.inl e.symm
+          · exact Or.inr (i10 q hq2 h1 h2)
+        · refine ⟨h.scan, new, l, hq, i2, by simp only [i7], ?_, ?_, ?_, ?_⟩
+          · simp only [KMap.get?_set, if_true]
+          · simp only [KMap.get?_set, KMap.get?_del, if_neg hne, if_true]
+          · intro b b1 b2
+            have n1 : ¬ new = b := fun x => b1 x.symm
+            have n2 : ¬ Addr.sh pg h.scan = b := fun x => b2 x.symm
+            simp only [KMap.get?_set, KMap.get?_del, if_neg n1, if_neg n2]
+            rw [i3, KMap.get?_set, if_neg n1]
+          · intro b hb; exact i8 b hb
+      · exact absurd (hcls h (by first | rfl | exact hp) hev) hcc
+
+
+/-! ### loops -/
+
+theorem foldE_inv {σ α : Type} (P : σ → List α → Prop) (f : σ → α → Except Err σ)
+    (hstep : ∀ s a rest s', P s (a :: rest) → f s a = .ok s' → P s' rest) :
+    ∀ (l : List α) (s s' : σ), P s l → foldE f s l = .ok s' → P s' [] := by
+  intro l
+  induction l with
+  | nil => intro s s' hp h; simp only [foldE] at h; cases h; exact hp
+  | cons a rest ih =>
+    intro s s' hp h
+    simp only [foldE] at h
+    cases hf : f s a with
+    | error e => simp [hf] at h
+    | ok s1 => simp only [hf] at h; exact ih s1 s' (hstep s a rest s1 hp hf) h
+
+theorem iter_inv {σ : Type} (P : σ → Prop) (f : σ → Except Err σ)
+    (hstep : ∀ s s', P s → f s = .ok s' → P s') :
+    ∀ (n : Nat) (s s' : σ), P s → iter f n s = .ok s' → P s' := by
+  intro n
+  induction n with
+  | zero => intro s s' hp h; simp only [iter] at h; cases h; exact hp
+  | succ n ih =>
+    intro s s' hp h
+    simp only [iter] at h
+    cases hf : f s with
+    | error e => simp [hf] at h
+    | ok s1 => simp only [hf] at h; exact ih s1 s' (hstep s s1 hp hf) h
+
+/-- invariant while class c is being defragmented: evacuating pages all belong to class c and to E -/
+structure DInv (s : State V) (c : Nat) (E : List Nat) : Prop where
+  g : InvG s
+  allocs : s.allocs = s.live.size
+  evac : ∀ q hq, s.pages.get? q = some hq → hq.evac = true → q ∈ E ∧ hq.cls = c
+
+theorem evacPage_dinv {s s' : State V} {c pg : Nat} {rest : List Nat} (hc : c < nClasses)
+    (d : DInv s c (pg :: rest)) (hr : evacPage s c pg = .ok s') : DInv s' c rest := by
+  unfold evacPage at hr
+  cases hp : s.pages.get? pg with
+  | none => simp [hp] at hr
+  | some h =>
+  simp only [hp] at hr
+  cases hi : iter (fun s => moveNext s c pg) h.brk s with
+  | error e => simp [hi] at hr
+  | ok s1 =>
+  simp only [hi] at hr
+  have d1 : DInv s1 c (pg :: rest) := by
+    refine iter_inv (fun s => DInv s c (pg :: rest)) _ ?_ h.brk s s1 d hi
+    intro t t' dt ht
+    obtain ⟨j1, j2, j3, j4, j5, _⟩ := moveNext_invG dt.g hc (fun h0 a b => (dt.evac pg h0 a b).2) ht
+    refine ⟨j1, by rw [j2, j3]; exact dt.allocs, ?_⟩
+    intro q hq a b
+    rcases j5 q hq a b with e | e
+    · subst e
+      obtain ⟨h0, h0', x1, x2, _, _, _, x6, x7, _⟩ := j4
+      rw [a] at x2; cases x2
+      exact ⟨by simp, by rw [x7]; exact (dt.evac q h0 x1 x6).2⟩
+    · exact dt.evac q hq e b
+  obtain ⟨k1, k2, k3, _, _, k6⟩ := endEvac_invG d1.g hr
+  refine ⟨k1, by rw [k3, k2]; exact d1.allocs, ?_⟩
+  intro q hq a b
+  obtain ⟨ne, a'⟩ := k6 q hq a
+  have := d1.evac q hq a' b
+  refine ⟨?_, this.2⟩
+  have hm := this.1
+  simp only [List.mem_cons] at hm
+  rcases hm with e | e
+  · exact absurd e ne
+  · exact e
+
+theorem relogClear_inv {s : State V} (inv : Inv s) : Inv ({ s with relog := [] } : State V) :=
+  ⟨⟨fun p h hp => (inv.g.pages p h hp).transfer (fun hx => hx) (Nat.le_refl _) (fun _ => Iff.rfl),
+    fun c => (inv.g.classes c).transfer rfl (fun _ _ _ => Iff.rfl),
+    fun b l hl => (inv.g.live b l hl).transfer rfl (fun p i _ h hp => ⟨h, hp, Nat.le_refl _, rfl⟩) (fun _ _ => rfl),
+    inv.g.privs⟩, inv.allocs, inv.noEvac⟩
+
+theorem defragClass_inv {s s' : State V} {c : Nat} {ev : List Nat} (hc : c < nClasses) (inv : Inv s)
+    (hr : defragClass s c ev = .ok s') : Inv s' := by
+  unfold defragClass at hr
+  simp only [] at hr
+  split at hr
+  · split at hr
+    · cases hr; exact inv
+    · cases hr
+  · split at hr
+    · split at hr
+      · cases hr; exact inv
+      · cases hr
+    · split at hr
+      · cases hr
+      · cases h1 : foldE (fun s pg => beginEvac s c pg) s ev with
+        | error e => simp [h1] at hr
+        | ok s1 =>
+          simp only [h1] at hr
+          -- phase 1: mark the pages
+          have p1 : DInv s1 c ev := by
+            have := foldE_inv (fun (t : State V) (l : List Nat) => (∀ x, x ∈ l → x ∈ ev) ∧ DInv t c ev)
+              (fun s pg => beginEvac s c pg) ?_ ev s s1
+              ⟨fun _ hx => hx, ⟨inv.g, inv.allocs, fun q hq a b => by rw [inv.noEvac q hq a] at b; cases b⟩⟩ h1
+            exact this.2
+            intro t pg rest t' ⟨hsub, dt⟩ ht
+            obtain ⟨j1, j2, j3, _, j5, _⟩ := beginEvac_invG dt.g ht
+            refine ⟨fun x hx => hsub x (List.mem_cons_of_mem _ hx), j1, by rw [j3, j2]; exact dt.allocs, ?_⟩
+            intro q hq a b
+            rcases j5 q hq a b with ⟨e1, e2⟩ | e
+            · exact ⟨by rw [e1]; exact hsub pg (by simp), e2⟩
+            · exact dt.evac q hq e b
+          -- phase 2: evacuate and unmap them
+          have p2 := foldE_inv (fun (t : State V) (l : List Nat) => DInv t c l)
+            (fun s pg => evacPage s c pg) (fun t pg rest t' dt ht => evacPage_dinv hc dt ht) ev s1 s' p1 hr
+          refine ⟨p2.g, p2.allocs, ?_⟩
+          intro q hq a
+          cases he : hq.evac with
+          | false => rfl
+          | true => have := (p2.evac q hq a he).1; simp at this
+
+theorem defragAll_inv {s s' : State V} {ch : List (Nat × List Nat)} (inv : Inv s)
+    (hr : defragAll s ch = .ok s') : Inv s' := by
+  unfold defragAll at hr
+  have := foldE_inv (fun (t : State V) (l : List Nat) => (∀ x, x ∈ l → x < nClasses) ∧ Inv t) _ ?_
+    (List.range nClasses) _ s' ⟨fun x hx => List.mem_range.1 hx, relogClear_inv inv⟩ hr
+  exact this.2
+  intro t c rest t' ⟨hsub, it⟩ ht
+  refine ⟨fun x hx => hsub x (List.mem_cons_of_mem _ hx), ?_⟩
+  split at ht
+  · exact defragClass_inv (hsub c (by simp)) it ht
+  · split at ht
+    · cases ht; exact it
+    · cases ht
+
+
+/-! ### what a whole pass does to the live allocations -/
+
+/-- `Chain r a b`: b is reached from a by following logged relocations (old,new) ∈ r -/
+inductive Chain (r : List (Addr × Addr)) : Addr → Addr → Prop where
+  | refl (a : Addr) : Chain r a a
+  | step {a b c : Addr} : (a, b) ∈ r → Chain r b c → Chain r a c
+
+theorem Chain.mono {r r' : List (Addr × Addr)} (h : ∀ x, x ∈ r → x ∈ r') {a b : Addr}
+    (c : Chain r a b) : Chain r' a b := by
+  induction c with
+  | refl a => exact .refl a
+  | step m _ ih => exact .step (h _ m) ih
+
+theorem Chain.snoc {r : List (Addr × Addr)} {a b c : Addr} (h : Chain r a b) (m : (b, c) ∈ r) :
+    Chain r a c := by
+  induction h with
+  | refl a => exact .step m (.refl _)
+  | step m' _ ih => exact .step m' (ih m)
+
+/-- every allocation live in s0 is live in t with the same record, at an address reached through the
+    relocation log of t -/
+def Moved (s0 t : State V) : Prop :=
+  ∀ a l, s0.live.get? a = some l → ∃ a', t.live.get? a' = some l ∧ Chain t.relog a a'
+
+theorem Moved.same {s0 t t' : State V} (m : Moved s0 t) (hl : t'.live = t.live) (hr : t'.relog = t.relog) :
+    Moved s0 t' := by
+  intro a l h; obtain ⟨a', x, y⟩ := m a l h; exact ⟨a', by rw [hl]; exact x, by rw [hr]; exact y⟩
+
+theorem moveNext_moved {s0 t t' : State V} {c pg : Nat} (inv : InvG t) (hc : c < nClasses)
+    (hcls : ∀ h, t.pages.get? pg = some h → h.evac = true → h.cls = c)
+    (hr : moveNext t c pg = .ok t') (m : Moved s0 t) : Moved s0 t' := by
+  obtain ⟨_, _, _, _, _, f⟩ := moveNext_invG inv hc hcls hr
+  rcases f with ⟨f1, f2, _⟩ | ⟨i, new, lo, f1, f2, f3, f4, f5, f6, _⟩
+  · exact m.same f1 f2
+  · intro a l h
+    obtain ⟨a', x, y⟩ := m a l h
+    have mono : ∀ z, z ∈ t.relog → z ∈ t'.relog := by intro z hz; rw [f3]; exact List.mem_cons_of_mem _ hz
+    by_cases e : a' = .sh pg i
+    · subst e
+      rw [f1] at x; cases x
+      exact ⟨new, f4, (y.mono mono).snoc (by rw [f3]; simp)⟩
+    · have : a' ≠ new := by
+        intro e2; subst e2; exact f2 (by simp [State.isLive, x])
+      exact ⟨a', by rw [f6 a' this e]; exact x, y.mono mono⟩
+
+theorem moveNext_dinv {t t' : State V} {c pg : Nat} {E : List Nat} (hc : c < nClasses)
+    (dt : DInv t c E) (ht : moveNext t c pg = .ok t') : DInv t' c E := by
+  obtain ⟨j1, j2, j3, j4, j5, _⟩ := moveNext_invG dt.g hc (fun h0 a b => (dt.evac pg h0 a b).2) ht
+  refine ⟨j1, by rw [j2, j3]; exact dt.allocs, ?_⟩
+  intro q hq a b
+  rcases j5 q hq a b with e | e
+  · subst e
+    obtain ⟨h0, h0', x1, x2, _, _, _, x6, x7, _⟩ := j4
+    rw [a] at x2; cases x2
+    have := dt.evac q h0 x1 x6
+    exact ⟨this.1, by rw [x7]; exact this.2⟩
+  · exact dt.evac q hq e b
+
+theorem evacPage_moved {s0 s s' : State V} {c pg : Nat} {E : List Nat} (hc : c < nClasses)
+    (d : DInv s c E) (m : Moved s0 s) (hr : evacPage s c pg = .ok s') : Moved s0 s' := by
+  unfold evacPage at hr
+  cases hp : s.pages.get? pg with
+  | none => simp [hp] at hr
+  | some h =>
+  simp only [hp] at hr
+  cases hi : iter (fun s => moveNext s c pg) h.brk s with
+  | error e => simp [hi] at hr
+  | ok s1 =>
+  simp only [hi] at hr
+  have d1 : DInv s1 c E ∧ Moved s0 s1 := by
+    refine iter_inv (fun s => DInv s c E ∧ Moved s0 s) _ ?_ h.brk s s1 ⟨d, m⟩ hi
+    intro t t' ⟨dt, mt⟩ ht
+    exact ⟨moveNext_dinv hc dt ht, moveNext_moved dt.g hc (fun h0 a b => (dt.evac pg h0 a b).2) ht mt⟩
+  obtain ⟨_, k2, _, k4, _⟩ := endEvac_invG d1.1.g hr
+  exact d1.2.same k2 k4
+
+theorem defragClass_moved {s0 s s' : State V} {c : Nat} {ev : List Nat} (hc : c < nClasses) (inv : Inv s)
+    (m : Moved s0 s) (hr : defragClass s c ev = .ok s') : Moved s0 s' := by
+  unfold defragClass at hr
+  simp only [] at hr
+  split at hr
+  · split at hr
+    · cases hr; exact m
+    · cases hr
+  · split at hr
+    · split at hr
+      · cases hr; exact m
+      · cases hr
+    · split at hr
+      · cases hr
+      · cases h1 : foldE (fun s pg => beginEvac s c pg) s ev with
+        | error e => simp [h1] at hr
+        | ok s1 =>
+          simp only [h1] at hr
+          have p1 : DInv s1 c ev ∧ Moved s0 s1 := by
+            have := foldE_inv (fun (t : State V) (l : List Nat) => (∀ x, x ∈ l → x ∈ ev) ∧ DInv t c ev ∧ Moved s0 t)
+              (fun s pg => beginEvac s c pg) ?_ ev s s1
+              ⟨fun _ hx => hx, ⟨inv.g, inv.allocs, fun q hq a b => by rw [inv.noEvac q hq a] at b; cases b⟩, m⟩ h1
+            exact this.2
+            intro t pg rest t' ⟨hsub, dt, mt⟩ ht
+            obtain ⟨j1, j2, j3, j4, j5, _⟩ := beginEvac_invG dt.g ht
+            refine ⟨fun x hx => hsub x (List.mem_cons_of_mem _ hx), ⟨j1, by rw [j3, j2]; exact dt.allocs, ?_⟩, mt.same j2 j4⟩
+            intro q hq a b
+            rcases j5 q hq a b with ⟨e1, e2⟩ | e
+            · exact ⟨by rw [e1]; exact hsub pg (by simp), e2⟩
+            · exact dt.evac q hq e b
+          have p2 := foldE_inv (fun (t : State V) (l : List Nat) => DInv t c l ∧ Moved s0 t)
+            (fun s pg => evacPage s c pg)
+            (fun t pg rest t' ⟨dt, mt⟩ ht => ⟨evacPage_dinv hc dt ht, evacPage_moved hc dt mt ht⟩) ev s1 s' p1 hr
+          exact p2.2
+
+theorem defragAll_moved {s s' : State V} {ch : List (Nat × List Nat)} (inv : Inv s)
+    (hr : defragAll s ch = .ok s') : Moved s s' := by
+  unfold defragAll at hr
+  have m0 : Moved s ({ s with relog := [] } : State V) := fun a l h => ⟨a, h, .refl a⟩
+  have := foldE_inv (fun (t : State V) (l : List Nat) => (∀ x, x ∈ l → x < nClasses) ∧ Inv t ∧ Moved s t) _ ?_
+    (List.range nClasses) _ s' ⟨fun x hx => List.mem_range.1 hx, relogClear_inv inv, m0⟩ hr
+  exact this.2.2
+  intro t c rest t' ⟨hsub, it, mt⟩ ht
+  refine ⟨fun x hx => hsub x (List.mem_cons_of_mem _ hx), ?_⟩
+  split at ht
+  · exact ⟨defragClass_inv (hsub c (by simp)) it ht, defragClass_moved (hsub c (by simp)) it mt ht⟩
+  · split at ht
+    · cases ht; exact ⟨it, mt⟩
+    · cases ht
 
 end GocoinV.Alloc
